@@ -13,7 +13,7 @@ use serde_json::{json, Value};
 use std::path::Path;
 use std::time::Duration;
 
-pub const DECORATIONS: [&str; 6] = ["/*é*/", "// ü\n", "/***/", "/* 漢字 */ ", "\r\n", " \t "];
+pub const DECORATIONS: [&str; 11] = ["/*é*/", "// ü\n", "/***/", "/* 漢字 */ ", "\r\n", " \t ", "×", "≠ ", " 😀", "#", "é"];
 
 fn is_identifier_list(t: &str) -> bool {
     !t.is_empty()
@@ -222,8 +222,9 @@ pub fn variant_text(text: &str, gap: usize, deco: usize) -> Option<String> {
 
 pub fn run(run: &Run) {
     run.set_rule(
-        "8 corpus files (every pass family, lifting warnings and errors, parse error, illegal sugar) x 6 \
-         decorations {/*e-acute*/, // u-umlaut + newline, /***/, /* CJK */, CRLF, blank-tab-blank} inserted at \
+        "8 corpus files (every pass family, lifting warnings and errors, parse error, illegal sugar) x 11 \
+         decorations {/*e-acute*/, // u-umlaut + newline, /***/, /* CJK */, CRLF, blank-tab-blank, and invalid \
+         characters of 1-4 bytes in code: x-times, not-equal, emoji, #, e-acute} inserted at \
          every token gap (every 2nd in quick), plus: all line ends CRLF, a decoration in every gap at \
          once, a multi-byte character inside a log string; every label checked for validity and for \
          covering a complete construct; binary line:col and SARIF regions recomputed from the original \
